@@ -412,6 +412,13 @@ def run_match(prop, tier, seed, t0):
             except Exception:
                 continue
             c = cat[x['id']]
+            if 'desc' in x:
+                import re as _re
+                md = _re.fullmatch(r'\s*(==|!=|<=|>=|<|>)\s*(-?\d+)\s*', x['desc'])
+                if md:       # an unknown wording of the description is not judged
+                    lines.append(json.dumps(dict(id=x['id'], kind='desc', term=c['term'], x=dict(n=0, v=0, f=[0, 0], found=0), res=0,
+                                                 dop={'==': 'eq', '!=': 'ne', '<': 'lt', '<=': 'le', '>': 'gt', '>=': 'ge'}[md.group(1)], dv=int(md.group(2)))))
+                continue
             lines.append(json.dumps(dict(id=x['id'], kind='scalar' if what == 'scalar' else 'range', term=c['term'], x=x['x'], res=x['res'])))
     if crashed:
         last = json.loads(lines[-1])['id'] if lines else -1
